@@ -28,9 +28,10 @@ TECHNIQUE = ('property-based testing (Hypothesis) plus an exhaustive '
              'calibration against hand-written reference build files')
 RULE = ('Path components over printable ASCII incl. space and \' " $ # % & ( '
         ') * ? [ ] : , @ ! + ~ { } ; = | < > ^ ` (no / or \\, no leading '
-        'one-letter-plus-colon, not . or ..), length 1-6, in seven roles '
+        'one-letter-plus-colon, not . or ..), length 1-6, in eleven roles '
         '(source, header, exe/build_step/copy_file output, output directory, '
-        'submodule directory, find_files hit, walked directory) x {make, '
+        'submodule directory, find_files hit, walked directory, include '
+        'directory given per target and through global_options) x {make, '
         'ninja}.  Names the reference build file cannot make work are '
         'excluded and counted.  Non-trivial: the name has a character '
         'outside [A-Za-z0-9_.-]; distinct = (backend, role, set of special '
@@ -46,7 +47,7 @@ LEVEL_NOTE = ('Trusted: GNU Make 4.3, the reference Ninja evaluator (not '
 ASSUMPTIONS = ['the header role additionally excludes " (C include syntax)']
 
 ROLES = ['source', 'header', 'exe', 'step', 'copy', 'outdir', 'submodule',
-         'findfile', 'finddir']
+         'findfile', 'finddir', 'incdir', 'gincdir']
 SAFE = set(string.ascii_letters + string.digits + '_.-')
 ALPHABET = [c for c in map(chr, range(32, 127)) if c not in '/\\']
 
@@ -212,6 +213,22 @@ def render(role, n, src):
           "executable('prog', ['main.c'] + find_files('tree/**/*.c'))\n")
         obj = ('B', 'prog.int/tree/' + n + '/f.o')
         return [obj, ('B', 'prog')], ('S', 'tree/' + n + '/f.c'), [obj]
+    if role in ('incdir', 'gincdir'):
+        # an include directory: a command argument of every compile step (per
+        # target or through the global flags) and part of a depfile entry
+        w(os.path.join(src, n, 'h.h'), '#define V 0\n')
+        w(os.path.join(src, 'main.c'), '#include "h.h"\nint main(void)'
+          '{return V;}\n')
+        if role == 'incdir':
+            w(os.path.join(src, 'build.bfg'),
+              "executable('prog', ['main.c'], includes=[header_directory("
+              "{!r})])\n".format(n + '/'))
+        else:
+            w(os.path.join(src, 'build.bfg'),
+              "global_options([opts.include_dir(header_directory({!r}))], "
+              "lang='c')\nexecutable('prog', ['main.c'])\n".format(n + '/'))
+        obj = ('B', 'prog.int/main.o')
+        return [obj, ('B', 'prog')], ('S', n + '/h.h'), [obj]
     raise KeyError(role)
 
 
@@ -282,7 +299,8 @@ def _reference_ninja(n):
 
 
 _repr_cache = {}
-DEPFILE_ROLES = {'source', 'header', 'submodule', 'findfile', 'finddir'}
+DEPFILE_ROLES = {'source', 'header', 'submodule', 'findfile', 'finddir',
+                 'incdir', 'gincdir'}
 
 
 def _protocol_ok(backend, tmp, out, touched):
@@ -467,7 +485,7 @@ def core_cases():
         for role in ROLES:
             for n in CORE_NAMES:
                 if '/' in n and role not in ('outdir', 'submodule',
-                                             'finddir'):
+                                             'finddir', 'incdir', 'gincdir'):
                     continue
                 out.append({'backend': backend, 'role': role, 'name': n})
     return out
